@@ -70,9 +70,19 @@ func (t *websocketTransport) Send(ctx context.Context, e envelope) error {
 	case <-ctx.Done():
 		// Effectively fails all pending write operations before returning.
 		// Note that this makes the encoder to be in a permanent error state.
-		_ = t.conn.SetWriteDeadline(time.Now())
-		<-errChan
-		return fmt.Errorf("ws transport: send: %w", ctx.Err())
+		// The websocket connection only keeps the deadline for the writes that start later: the write
+		// that is already blocked on the socket (or about to arm it with the previous deadline) has to
+		// be failed on the network connection itself, until the writer has returned.
+		for {
+			now := time.Now()
+			_ = t.conn.SetWriteDeadline(now)
+			_ = t.conn.UnderlyingConn().SetWriteDeadline(now)
+			select {
+			case <-errChan:
+				return fmt.Errorf("ws transport: send: %w", ctx.Err())
+			case <-time.After(10 * time.Millisecond):
+			}
+		}
 	case err := <-errChan:
 		if err != nil {
 			return fmt.Errorf("ws transport: send: %w", err)
